@@ -1,6 +1,7 @@
 import Driver.Common
 import RxModel.Subj
 import RxModel.SubjReplay
+import RxModel.SubjReplayTramp
 open Lean Drv
 
 namespace DrvSubj
@@ -74,7 +75,7 @@ def robsOfJson (j : Json) : Except String RObsSpec := do
 
 def evToJson : SubjReplay.EvR Val → Json
   | .emit i now n => Json.arr #[.str "emit", .num (JsonNumber.fromNat i), .num (JsonNumber.fromNat now), notifToJson n]
-  | .call k now nobs => Json.arr #[.str "call", .num (JsonNumber.fromNat k), .num (JsonNumber.fromNat now), .num (JsonNumber.fromNat nobs)]
+  | .call k now nobs _ => Json.arr #[.str "call", .num (JsonNumber.fromNat k), .num (JsonNumber.fromNat now), .num (JsonNumber.fromNat nobs)]
   | .sub j now => Json.arr #[.str "sub", .num (JsonNumber.fromNat j), .num (JsonNumber.fromNat now)]
   | .unsub j => Json.arr #[.str "unsub", .num (JsonNumber.fromNat j)]
   | .dispose => Json.arr #[.str "dispose"]
@@ -106,6 +107,30 @@ def handle (op : String) (j : Json) : Except String Json := do
                       ("raised", Json.arr (raised.map optErr).toArray),
                       ("nobs", Json.arr ((runObsCounts cfg 100000 (init cfg initial) calls).map fun n => Json.num (JsonNumber.fromNat n)).toArray),
                       ("oof", .bool st.oof)])
+  | "replay_tramp" =>
+    let os ← (← getArr j "observers").mapM robsOfJson
+    let calls ← (← getArr j "calls").mapM fun p =>
+      match p with
+      | .arr #[t, c] => do pure ((← t.getNat?), (← callOfJson c))
+      | _ => throw "bad timed call"
+    let buffer ← getOptNat j "buffer"
+    let window ← getOptNat j "window"
+    let cfg : SubjReplay.Cfg Val :=
+      { bufferSize := buffer, window := window
+        hasErr := fun i => match os[i]? with | some o => o.err | none => true
+        react := fun i k => match os[i]? with
+          | some o => (match o.react.find? (fun p => p.1 == k) with | some p => p.2 | none => [])
+          | none => [] }
+    let s := SubjTramp.runT cfg 1000000 {} 0 calls
+    let st := s.base
+    let logs := (List.range os.length).map fun i =>
+      Json.arr (((st.log i).map fun (t, n) => Json.arr #[.num (JsonNumber.fromNat t), notifToJson n]).toArray)
+    pure (Json.mkObj [("logs", Json.arr logs.toArray),
+                      ("xs", Json.arr (st.xlog.map fun (i, e) => Json.arr #[.num (JsonNumber.fromNat i), .str e]).toArray),
+                      ("raised", Json.arr (st.raised.map fun (k, e) => Json.arr #[.num (JsonNumber.fromNat k), .str e]).toArray),
+                      ("crashed", optErr st.crashed),
+                      ("order", Json.arr (st.evs.map evToJson).toArray),
+                      ("idle", .bool (s.agenda.isEmpty && !s.active && st.pending.isEmpty))])
   | "replay" =>
     let os ← (← getArr j "observers").mapM robsOfJson
     let calls ← (← getArr j "calls").mapM fun p =>
